@@ -206,6 +206,8 @@ import JdProofs.NativeRoundTrip
 import JdProofs.Robust
 import JdProofs.NativeEndToEnd
 import JdProofs.NativeEndToEndSet
+import JdProofs.NativeEndToEndKeysB
+import JdProofs.NativeEndToEndKeys
 
 set_option autoImplicit false
 
@@ -1024,5 +1026,43 @@ theorem setMerge_collision_witness :
         = some text ∧
       readDiffM exCodec text = .ok d' ∧ patchM E2ES.Collision.wa d' = .err :=
   E2ES.Collision.collision_witness_setMerge
+
+/-! ## End to end for the SetKeys reading (`jd -setkeys k a b | jd -p`), strict strategy
+
+   Proofs in JdProofs/NativeEndToEndKeys.lean / …KeysB.lean (ns `Jd.E2EK`). Unlike the SET reading the
+   diff does descend below keyed path elements; `E2EK.Nav` describes the finitely many paths a diff of `a`
+   can have. `ks ≠ []` is needed: under `SetKeys()` `Diff` emits the path element `{}`-as-keys, which the
+   text reads back as the set marker (`E2EK.EmptyKeys.emptyKeys_witness`, replayed on the Go library; not
+   reachable from the command line). The three fields of `KeysHyp` shown necessary in memory are shown
+   necessary through the text as well (`E2EK.KeysHypNeeded.*_breaks_text`). -/
+
+/-- **C02 proper for diffs produced under SetKeys**: the text reads back to a diff that renders to the
+    identical text and has the identical outcome on EVERY document -/
+theorem diff_text_lossless_setkeys (nc : NumCodec) {o : Opts} {ks : List String}
+    (hd : dispatchTag o = .set) (hk : keysOf o = some ks) (hmg : isMerge o = false)
+    (hks : ks ≠ []) (a b : Json) (ha : a.rawDoc = true) (hb : b.rawDoc = true)
+    (hva : Jd.E2E.voidFree a = true) (hvb : Jd.E2E.voidFree b = true)
+    (hv : ∀ z ∈ subterms a ++ subterms b, ValOK nc z)
+    (hpth : ∀ h ∈ diffM o a b, PathOK nc h.path)
+    (text : String) (hr : renderM nc [] (diffM o a b) = some text) :
+    ∃ d', readDiffM nc text = .ok d' ∧ renderM nc [] d' = some text ∧
+      ∀ c : Json, patchM c d' = patchM c (diffM o a b) :=
+  Jd.E2EK.diff_text_lossless_setkeys nc hd hk hmg hks a b ha hb hva hvb hv hpth text hr
+
+/-- **the end-to-end theorem, SetKeys**: print, read back, apply to `a`: the result `Equals` `b` under
+    the options (and is the same document the in-memory patch gives) -/
+theorem diff_render_read_patch_setkeys (F : FloatEq0) (L : FloatLaws) (nc : NumCodec) (o : Opts)
+    (ks : List String) (hd : dispatchTag o = .set) (hk : keysOf o = some ks)
+    (hmg : isMerge o = false) (hp : precOf o = 0) (hks : ks ≠ []) (a b : Json)
+    (ha : a.setDoc = true) (hb : b.setDoc = true)
+    (hva : Jd.E2E.voidFree a = true) (hvb : Jd.E2E.voidFree b = true)
+    (KH : Jd.DPK.KeysHyp o ks a b)
+    (hv : ∀ z ∈ subterms a ++ subterms b, ValOK nc z)
+    (hpth : ∀ h ∈ diffM o a b, PathOK nc h.path)
+    (text : String) (hr : renderM nc [] (diffM o a b) = some text) :
+    ∃ d', readDiffM nc text = .ok d' ∧ d' = normDiff (diffM o a b) ∧
+      ∃ r, patchM a d' = .ok r ∧ patchM a (diffM o a b) = .ok r ∧
+        equals o r b = true ∧ equivB o r b = true ∧ hashCode o r = hashCode o b :=
+  Jd.E2EK.diff_render_read_patch_setkeys F L nc o ks hd hk hmg hp hks a b ha hb hva hvb KH hv hpth text hr
 
 end Jd.Props.C02
